@@ -121,6 +121,20 @@ Proof.
                  | rewrite get64_put_other by lia ]; rewrite get64_put64 by auto; reflexivity.
 Qed.
 
+(* the latest counter is written once, just before the tail is published *)
+Lemma tx_latest_at pc :
+  get64 (tx_mem_at pc) (latest_idx cap) = match pc with TTail _ _ => tail1 | _ => get64 mm0 (latest_idx cap) end.
+Proof.
+  destruct tx_arith as (A1 & A2 & A3 & A4 & A5 & A6 & A7 & A8 & A9 & A10 & A11 & A12). pose proof CB.
+  destruct HT as (T0 & T8 & TB).
+  assert (in_i64 tail1 = true) by (unfold tail1, in_i64, two63; destruct pad; lia).
+  unfold tx_mem_at, m7, m6, m5, m4, m3, m2, m1. offs.
+  destruct pc; auto; destruct pad eqn:P; try specialize (A9 eq_refl);
+    try (rewrite get64_put64 by auto; reflexivity);
+    repeat first [ rewrite get64_put64_other by lia | rewrite get64_put32_other by lia
+                 | rewrite get64_put_other by lia ]; reflexivity.
+Qed.
+
 (* frame: only the padding header (if any) and the record's own bytes are written in the data area *)
 Lemma tx_frame pc a :
   0 <= a < cap ->
